@@ -858,8 +858,16 @@ impl Property for C20 {
         let _ = w.loop_free;
 
         let obs_hash = {
-            let mut h = hash_bytes(&sep.stdout);
-            h = hash_combine(h, hash_bytes(&strip_sgr(&sep.stderr)));
+            // messages may quote the operand: the private scratch directory's
+            // name (process id, counter) is not part of the observation
+            let scratch_name = scratch.path.to_string_lossy().to_string();
+            let neutral = |b: &[u8]| -> Vec<u8> {
+                String::from_utf8_lossy(b)
+                    .replace(&scratch_name, "<scratch>")
+                    .into_bytes()
+            };
+            let mut h = hash_bytes(&neutral(&sep.stdout));
+            h = hash_combine(h, hash_bytes(&neutral(&strip_sgr(&sep.stderr))));
             h = hash_combine(h, sep.code.unwrap_or(-1) as u64);
             h
         };
@@ -867,7 +875,8 @@ impl Property for C20 {
         // determinism digest when the library itself panics on this world
         res.digest = hash_combine(
             res.digest,
-            if lib.is_ok() { obs_hash } else { hash_bytes(&sep.stdout) },
+            // (the same goes for any panic report: exit status 101)
+            if lib.is_ok() && sep.code != Some(101) { obs_hash } else { hash_bytes(&sep.stdout) },
         );
         res.histories.push(hash_combine(
             hash_bytes(format!("{:?}{:?}{:?}", w.sub, w.usage, w.fault).as_bytes()),
@@ -910,6 +919,9 @@ impl Property for C20 {
             ])
         };
 
+        if std::env::var("VERIF_DUMP").is_ok() {
+            eprintln!("{}", world_json(&sep, &shared).pretty());
+        }
         if let Some((rule, detail)) = judge(&w, &lib, &sep, &shared) {
             res.violation = Some(Violation {
                 rule: rule.to_string(),
